@@ -50,6 +50,9 @@ class Goldens:
 
     def _run(self, reqs, variant, hashseed, aslr):
         plan = {"world": "golden", "variant": variant, "requests": reqs, "hashseed": hashseed, "aslr": aslr}
+        if variant == "B":
+            # one more way in which "the process" may differ: asserts compiled out, another TZ / terminal
+            plan["env"] = {"PYTHONOPTIMIZE": "1", "TZ": "Pacific/Auckland", "COLUMNS": "33", "NO_COLOR": "1"}
         r = runner.run_plan(plan, timeout=600)
         if r["status"] != "ok":
             raise runner.HarnessFailure("golden process failed: %r" % (r,))
